@@ -29,7 +29,7 @@ META = {
     "explanation": "BlockStore write/flush/read and read_chain_from_disk executed for symbolic block contents on a relational model of SQLite "
                    "(schema parsed from the repository's DDL); read-back blocks and the rebuilt ledger are compared with what was written.",
     "technique": "CrossHair symbolic execution of the block store on a relational stub (schema from the repo's CREATE TABLE text), differential validation against real sqlite3",
-    "bounds": "<= 3 blocks above genesis (thorough: all 3-block trees with all batchings, four 4-block trees), reward + <= 1 spend per block, two orders for rows of equal height",
+    "bounds": "<= 3 blocks above genesis (thorough: all 3-block trees with all batchings, four 4-block trees), reward + <= 1 spend (<= 2 inputs) per block, two orders for rows of equal height, one block written a second time",
     "outside": "SQLite itself (journalling, file corruption, concurrent connections); larger trees",
     "stubs": ["relational stand-in for sqlite3 (symlib/stubs/relstore.py)", "LRO hash oracle for transaction ids", "PyBytesIO"],
     "assumptions": ["the stand-in equals SQLite for the statements the store issues (validated per run on concrete scenarios; replays use real SQLite)"],
